@@ -377,6 +377,11 @@ func Main(all []Registration) {
 		out.Tags["style:"+regs[cs.Key].Style]++
 		out.Tags["variant:"+regs[cs.Key].Variant]++
 		out.Tags["strategy:"+orig.Sched.Strategy]++
+		if regs[cs.Key].Src != "" {
+			out.Tags["corpus:seeded-random-interface"]++
+		} else {
+			out.Tags["corpus:fixed-library"]++
+		}
 		for _, t := range st.Tags {
 			out.Tags[t]++
 		}
@@ -435,6 +440,7 @@ func Main(all []Registration) {
 			fin, vf = cs, v
 			note += " (minimised case did not re-fail; original reported)"
 		}
+		fin.IfaceSrc = regs[fin.Key].Src
 		out.Found = &Found{Violation: *vf, Case: *fin, Note: note, CaseIndex: idx}
 		break
 	}
